@@ -74,7 +74,6 @@ pub(super) fn handle_prev_state<'i>(
                 serde_json::from_value(serde_json::to_value(err_value).expect("serde_json serializer shouldn't fail"))
                     .map_err(UncatchableError::MalformedCallServiceFailed)?;
 
-            exec_ctx.make_subgraph_incomplete();
             exec_ctx.record_call_cid(&tetraplet.peer_pk, failed_cid);
             trace_ctx.meet_call_end(met_result.result);
 
